@@ -193,6 +193,18 @@ def _scores(tier):
         ("e", 0, 4, "E", None, 4, 1, 1), ("c2", 0, 4, "C", None, 4, 2, 1), ("c1", 4, 4, "C", None, 4, 1, 1), ("x", 8, 8, "D", None, 4, 1, 1), ("y", 8, 8, "C", None, 4, 2, 1)],
         measures=[(0, 16)], key=(0, "major"))])))
 
+    def lead_in():
+        # the first time signature stands two quarters into the piece (an unmetered lead-in), not at its start
+        p = sc.Part("P1", quarter_duration=4)
+        p.add(sc.TimeSignature(3, 4), 8)
+        p.add(sc.KeySignature(-1, "major"), 8)
+        p.add(sc.Measure(number=1), 8, 20)
+        p.add(sc.Measure(number=2), 20, 32)
+        for (nid, s_, e_, st) in (("u0", 0, 4, "G"), ("u1", 4, 8, "A"), ("a", 8, 14, "C"), ("b", 14, 20, "E"), ("c", 20, 32, "G")):
+            p.add(sc.Note(step=st, octave=4, id=nid, voice=1, staff=1), s_, e_)
+        return G.simple_score([p])
+    out.append(("first_time_signature_after_an_unmetered_lead_in", lead_in))
+
     def with_change_12_8():
         p = sc.Part("P1", quarter_duration=12)
         p.set_quarter_duration(48, 8)
@@ -233,6 +245,52 @@ def _scores(tier):
         out.append(("divs24_divs12", lambda: G.simple_score([one(24, pid="P1", triplet=True, grace=True), one(12, pid="P2", pickup=12)])))
         out.append(("divs3_no_tie", lambda: G.simple_score([one(3, tie=False, triplet=True)])))
     return out
+
+
+def _stale_state(b):
+    """a part whose maps were read, then whose opening bar is edited, is exported like a part built in its final state"""
+    import io
+    import partitura as pt
+    import partitura.score as sc
+    from gen import scores as G
+
+    def base(ts0, bars):
+        p = sc.Part("P1", quarter_duration=4)
+        p.add(sc.TimeSignature(*ts0), 0)
+        for i, (s_, e_) in enumerate(bars):
+            p.add(sc.Measure(number=i + 1), s_, e_)
+        for (nid, s_, e_, st) in (("a", 0, 4, "C"), ("b", 4, 12, "E"), ("c", 12, 20, "G"), ("d", 20, 36, "A")):
+            p.add(sc.Note(step=st, octave=4, id=nid, voice=1, staff=1), s_, e_)
+        return p
+    edits = {
+        "bar_lines_added_so_that_the_first_bar_is_a_pickup": (lambda: base((4, 4), []), lambda p: [p.add(sc.Measure(number=i + 1), s_, e_) for i, (s_, e_) in enumerate([(0, 4), (4, 20), (20, 36)])],
+                                                              lambda: base((4, 4), [(0, 4), (4, 20), (20, 36)])),
+        "first_time_signature_replaced": (lambda: base((3, 4), [(0, 4), (4, 20), (20, 36)]),
+                                          lambda p: [p.remove(next(iter(p.iter_all(sc.TimeSignature)))), p.add(sc.TimeSignature(4, 4), 0)],
+                                          lambda: base((4, 4), [(0, 4), (4, 20), (20, 36)])),
+    }
+    for name, (mk0, edit, mk1) in edits.items():
+        for read in ("note_array", "save_score_midi", "quarter_map"):
+            for ana in ("shift", "pad_bar", "time_sig_change"):
+                case = {"history": name, "read_before_the_edit": read, "anacrusis": ana}
+                p = mk0()
+                sco = G.simple_score([p])
+                try:
+                    if read == "note_array":
+                        p.note_array()
+                    elif read == "quarter_map":
+                        p.quarter_map(0), p.beat_map(0)
+                    else:
+                        pt.save_score_midi(sco, io.BytesIO(), anacrusis_behavior=ana)
+                    edit(p)
+                    b1, b2 = io.BytesIO(), io.BytesIO()
+                    pt.save_score_midi(sco, b1, anacrusis_behavior=ana)
+                    pt.save_score_midi(G.simple_score([mk1()]), b2, anacrusis_behavior=ana)
+                except Exception as e:
+                    b.case("export/no_exception", False, case, "%s: %s" % (type(e).__name__, e))
+                    continue
+                b.case("export/a_part_edited_after_a_read_is_exported_like_a_part_built_in_that_state", b1.getvalue() == b2.getvalue(), case,
+                       "the file written after reading and editing differs from the file of a part built directly in the final state")
 
 
 def _read_file(mf):
@@ -276,6 +334,8 @@ def bounded(b):
     for sname, mk in scores:
         for (mode, ana, minppq) in combos:
             case = {"score": sname, "mode": mode, "anacrusis": ana, "minimum_ppq": minppq, "velocity": 77}
+            if sname == "first_time_signature_after_an_unmetered_lead_in" and ana != "shift":
+                continue  # the two other policies are defined for a pickup under the first signature; what they do to a lead-in before it is not stated
             score = mk()
             buf = io.BytesIO()
             ok, _ = b.guard("export/no_exception", case, lambda: pt.save_score_midi(score, buf, part_voice_assign_mode=mode, velocity=77, anacrusis_behavior=ana, minimum_ppq=minppq))
@@ -394,3 +454,4 @@ def bounded(b):
                 good = sig(orig_groups) == sig(back_groups)
             b.case("import/same_mode_recovers_grouping_into_parts_and_voices", good, case,
                    "groups by pitch content: original %r, re-imported %r" % (sig(orig_groups), sig(back_groups)))
+    _stale_state(b)
